@@ -430,9 +430,17 @@ class Fn:
                    'vec::Vec::<T, A>::as_mut_slice', 'option::Option::<T>::as_ref', 'option::Option::<T>::as_mut',
                    'option::Option::<T>::as_deref', 'string::String::as_bytes', 'str::<impl str>::as_bytes')
 
-    def _transparent(self, c):
+    WIDE = ('into_iter', 'iter', 'iter_mut', 'next', 'unwrap', 'expect', 'clone', 'cloned', 'copied', 'to_owned', 'to_string',
+            'borrow', 'borrow_mut', 'as_ref', 'as_mut', 'as_str', 'as_slice', 'deref', 'deref_mut', 'peekable', 'peek', 'rev',
+            'enumerate', 'unwrap_or_default', 'as_deref', 'first', 'last', 'get', 'into', 'from', 'as_bytes', 'chars', 'by_ref',
+            'as_mut_slice', 'unwrap_unchecked', 'into_inner', 'take', 'skip', 'zip', 'to_vec', 'into_boxed_slice', 'as_ptr',
+            'as_mut_ptr', 'len')
+
+    def _transparent(self, c, wide=False):
         r = c.resolved or ''
         d = c.callee or ''
+        if wide and c.name() in self.WIDE:
+            return True
         if d.endswith('convert::Into::into') and r.endswith('convert::From<T>>::from'):
             # Into::into resolving to the reflexive `impl From<T> for T` is the identity
             return True
@@ -441,7 +449,7 @@ class Fn:
                 return True
         return False
 
-    def origin(self, op_or_place, depth=12, _seen=None):
+    def origin(self, op_or_place, depth=12, _seen=None, wide=False):
         """Depth-limited backwards def-use walk: returns a set of provenance terms for an operand.
         Terms: ('const', op) | ('arg', n, projs) | ('call', Call, projs) | ('agg', rv, projs)
                | ('ref', place) | ('unknown', what) . Copies, moves, reborrows and derefs are looked through;
@@ -451,9 +459,9 @@ class Fn:
         if 'c' in op_or_place and 'l' not in op_or_place:
             return {('const', json.dumps(op_or_place, sort_keys=True))}
         p = op_place(op_or_place) if ('cp' in op_or_place or 'mv' in op_or_place) else op_or_place
-        return self._origin_place(p, depth, _seen or set())
+        return self._origin_place(p, depth, _seen or set(), wide)
 
-    def _origin_place(self, p, depth, seen):
+    def _origin_place(self, p, depth, seen, wide=False):
         l = p['l']
         projs = tuple(proj_str(x) for x in place_projs(p) if x != '*')
         if 1 <= l <= self.argc:
@@ -469,8 +477,8 @@ class Fn:
         for d in defs:
             if d[0] == 'call':
                 c = d[3]
-                if self._transparent(c) and c.args and op_place(c.args[0]) is not None:
-                    for t in self._origin_place(op_place(c.args[0]), depth - 1, seen):
+                if self._transparent(c, wide) and c.args and op_place(c.args[0]) is not None:
+                    for t in self._origin_place(op_place(c.args[0]), depth - 1, seen, wide):
                         out.add(_add_projs(t, projs))
                 else:
                     out.add(('call', c, projs))
@@ -482,17 +490,17 @@ class Fn:
                 if 'c' in a and 'l' not in a:
                     out.add(('const', json.dumps(a, sort_keys=True)))
                 else:
-                    for t in self._origin_place(op_place(a), depth - 1, seen):
+                    for t in self._origin_place(op_place(a), depth - 1, seen, wide):
                         out.add(_add_projs(t, projs))
             elif k in ('ref', 'rawptr'):
-                for t in self._origin_place(rv['p'], depth - 1, seen):
+                for t in self._origin_place(rv['p'], depth - 1, seen, wide):
                     out.add(_add_projs(t, projs))
             elif k == 'cast':
                 a = rv['a']
                 if 'c' in a and 'l' not in a:
                     out.add(('const', json.dumps(a, sort_keys=True)))
                 else:
-                    for t in self._origin_place(op_place(a), depth - 1, seen):
+                    for t in self._origin_place(op_place(a), depth - 1, seen, wide):
                         out.add(_add_projs(t, projs))
             elif k == 'agg':
                 out.add(('agg', json.dumps(rv, sort_keys=True), projs))
